@@ -100,6 +100,44 @@ func (c *Ctx) segmenter() *segmenterInfo {
 			si.video = appendUnique(si.video, caller)
 		}
 	}
+	// a thin wrapper that passes the constants on behalf of the audio writers (`fmp4WriteAudioSample(track, sample)`)
+	// stands for its callers
+	for changed := true; changed; {
+		changed = false
+		for idx, w := range si.audio {
+			if len(w.Blocks) != 1 {
+				continue
+			}
+			forwards := true
+			ncalls := 0
+			allInstrs(w, func(in ssa.Instruction) {
+				if call, ok := in.(*ssa.Call); ok {
+					ncalls++
+					if call.Call.StaticCallee() != si.writeSample {
+						forwards = false
+					}
+				}
+			})
+			if !forwards || ncalls != 1 {
+				continue
+			}
+			var callers []*ssa.Function
+			for _, e := range c.callersOf(w) {
+				if e.Site != nil {
+					callers = appendUnique(callers, e.Caller.Func)
+				}
+			}
+			if len(callers) == 0 {
+				continue
+			}
+			si.audio = append(si.audio[:idx:idx], si.audio[idx+1:]...)
+			for _, cf := range callers {
+				si.audio = appendUnique(si.audio, cf)
+			}
+			changed = true
+			break
+		}
+	}
 	for _, i := range boolIdx {
 		allT, allF := len(constAt[i]) > 0, len(constAt[i]) > 0
 		for _, b := range constAt[i] {
